@@ -26,6 +26,8 @@ macro_rules! dispatch {
         match $id {
             "C01" => runner::$f::<props::c01::P>($($arg),*),
             "C02" => runner::$f::<props::c02::P>($($arg),*),
+            "C03" => runner::$f::<props::c03::P>($($arg),*),
+            "C04" => runner::$f::<props::c04::P>($($arg),*),
             "C05" => runner::$f::<props::c05::P>($($arg),*),
             "C06" => runner::$f::<props::c06::P>($($arg),*),
             "C07" => runner::$f::<props::c07::P>($($arg),*),
@@ -114,6 +116,8 @@ fn main() {
             match kind.as_str() {
                 "c13" => props::c13::child_main(Path::new(&file)),
                 "c11" => props::c11::child_main(Path::new(&file)),
+                "c03" => props::c03::child_main(Path::new(&file)),
+                "c04" => props::c04::child_main(Path::new(&file)),
                 other => {
                     eprintln!("unknown child kind {other}");
                     2
